@@ -162,6 +162,11 @@ pub enum Op {
         input: String,
         repl: String,
     },
+    /// Hand the live iterator in slot `it` to thread `to` (only when the iterator type is
+    /// `Send` on the tree under test; otherwise skipped).
+    GiveIter { it: usize, to: usize },
+    /// Take an iterator another thread handed over into slot `it`.
+    TakeIter { it: usize },
     /// F11: simulated time passes (no real sleeping) before the next operation.
     ClockAdvance { ms: u64 },
     /// Legal but unusual: `Debug`-format the object (and the thread's live iterators) in
@@ -336,6 +341,8 @@ pub struct RunRecord {
     pub panicking_calls: u64,
     #[serde(default)]
     pub at_exit_calls: u64,
+    #[serde(default)]
+    pub iters_moved: u64,
     #[serde(default)]
     pub env_reads: u64,
     #[serde(default)]
